@@ -394,7 +394,7 @@ def _oracle_stat(case):
 # ------------------------------------------------------------------------------------------------------------
 def run(ctx):
     rng = ctx.rng
-    cases = [gen_case(rng, ctx.quick) for _ in range(ctx.n(6, 50))]
+    cases = [gen_case(rng, ctx.quick) for _ in range(ctx.n(6, 30))]
     for impl in ("jax", "cl"):
         for pe in ("a", "none"):
             c = gen_case(rng, ctx.quick, impl=impl)
@@ -438,7 +438,7 @@ def run(ctx):
     _list_logic(ctx)
     if not ctx.quick:
         for impl in ("jax", "cl"):
-            for _ in range(3):
+            for _ in range(1 if impl == "jax" else 3):
                 base = gen_case(rng, True, impl=impl)
                 sc = dict(sub="stat", base=base, K=8000 if impl == "jax" else 3000, key=rng.randint(0, 2 ** 31 - 1))
                 ctx.case(sc, True)
